@@ -3,12 +3,12 @@ from __future__ import annotations
 
 import ast
 
-from ..astx import un, NoValue, walk_shallow, call_name, enclosing, kwarg
+from ..astx import un, NoValue, walk_shallow, call_name, enclosing, kwarg, Poly
 from ..absint import Obj, Unk, PyFunc
 from ..core import rule, fixture_for, Unknown
 from ..optree import T
 from fractions import Fraction
-from ..symenv import tree_interp
+from ..symenv import tree_interp, make_interp
 from .c11 import pow_table
 
 INFO = {
@@ -25,7 +25,7 @@ INFO = {
                    "identically-zero denominator or a degenerate pseudoscalar. NOT decided: that the Hitzer forms make "
                    "x*num scalar (a published theorem, trusted), and anything about the arithmetic of Shirokov's "
                    "recursion beyond its dispatch.",
-    "decided": ["C07.dispatch", "C07.closed-forms", "C07.shirokov-degree", "C07.div-order", "C07.pow", "C07.zero-division"],
+    "decided": ["C07.semantic", "C07.dispatch", "C07.closed-forms", "C07.shirokov-degree", "C07.div-order", "C07.pow", "C07.zero-division"],
     "not_decided": ["x * num is a scalar for the closed forms (Hitzer & Sangwine 2017, trusted)",
                     "correctness of the Shirokov iteration and of power_supply/AdditionChains for d >= 6"],
     "assumptions": ["Hitzer & Sangwine, 'Multivector and multivector matrix inverses in real Clifford algebras' (2017)"],
@@ -265,7 +265,90 @@ def shirokov_recursion(ctx):
             ctx.ok(c, fn, steps=n)
 
 
-@rule("C07.div-order", props=["C07"], min_instances=3, mutants=[
+SEMANTIC_INV_REPS = [
+    # signature (non-degenerate), stored blades
+    ("scalar in 0-D", [], (0,)),
+    ("full multivector in 1-D", [-1], (0, 1)),
+    ("full multivector in 2-D", [1, -1], (0, 1, 2, 3)),
+    ("vector in 3-D", [1, -1, 1], (1, 2, 4)),
+    ("rotor-like in 3-D", [1, -1, 1], (0, 3, 5, 6)),
+    ("full multivector in 3-D", [1, -1, 1], (5, 0, 3, 6, 1, 7, 2, 4)),
+    ("non-simple bivector in 4-D (two blades)", [1, -1, 1, 1], (3, 12)),
+    ("general bivector in 4-D", [1, -1, 1, 1], (3, 5, 6, 9, 10, 12)),
+    ("scalar + pseudoscalar in 4-D", [1, -1, 1, 1], (0, 15)),
+    ("vector + trivector in 4-D", [1, -1, 1, 1], (1, 8, 7, 14)),
+    ("non-simple bivector in 5-D", [1, 1, -1, 1, 1], (3, 12, 17)),
+    ("non-simple trivector in 5-D", [1, 1, -1, 1, 1], (7, 25)),
+    ("scalar + quadvector in 5-D", [1, 1, -1, 1, 1], (0, 15, 30)),
+    ("vector in 6-D", [1, 1, -1, 1, 1, 1], (1, 2, 32)),
+    ("non-simple bivector in 6-D", [1, 1, -1, 1, 1, 1], (3, 12)),
+    ("scalar + non-simple bivector in 6-D", [1, 1, -1, 1, 1, 1], (0, 3, 12, 48)),
+]
+
+
+@rule("C07.semantic", props=["C07", "C08", "C19"], min_instances=30, mutants=[
+    ("a homogeneous operand is taken for a blade (numerator ~x)", ("codegen", "    if d == 0:\n        num = alg.blades.e\n    elif d == 1:", "    if d == 0:\n        num = alg.blades.e\n    elif len(x.grades) == 1:\n        num = ~x\n    elif d == 1:")),
+    ("scalar + pseudoscalar shortcut (a - bI)/a**2", ("codegen", "    alg = y.algebra\n    if alg.d < 6:\n        num, denom = codegen_hitzer_inv(y, symbolic=True)", "    alg = y.algebra\n    if alg.d >= 4 and y.grades == (0, alg.d):\n        num = y.grade(0) - y.grade(alg.d)\n        denom = (y.grade(0) * y.grade(0)).e\n    elif alg.d < 6:\n        num, denom = codegen_hitzer_inv(y, symbolic=True)")),
+    ("Faddeev-LeVerrier coefficient with integer division", ("codegen", "        cs.append(s if (s := xi.e) == 0 else n * s / i)", "        cs.append(s if (s := xi.e) == 0 else n // i * s)")),
+])
+def semantic_inverse(ctx):
+    """The inverse generators interpreted from the source on representative operands with symbolic coefficients (operands of
+    one grade that are NOT blades, mixed ones, full ones; non-degenerate signatures of dimension 0..6), every elementary
+    operator answered by the specification: for the returned (numerator, denominator), x * numerator and numerator * x
+    are the scalar `denominator` and nothing else, and the denominator is not identically zero - whatever shortcut the
+    generator takes for operands of a special shape."""
+    from ..specmv import attach_spec_operators, as_spec
+    from ..products import PV, poly_of_value
+    from ..symenv import mv_obj
+    from .c02 import operands
+    repo = ctx.repo
+    for q in ("codegen.codegen_inv", "codegen.codegen_hitzer_inv", "codegen.codegen_shirokov_inv"):
+        fn = ctx.func(q)
+        for label, sig, xk in SEMANTIC_INV_REPS:
+            d = len(sig)
+            if q.endswith("hitzer_inv") and d > 5:
+                continue                              # the closed forms exist up to five dimensions
+            if q.endswith("shirokov_inv") and d in (4, 5) and len(xk) > 3:
+                continue                              # keep the polynomial sizes of the iteration small
+            c = f"{q}#semantic:{label}"
+            alg, x, _ = operands(sig, xk, ())
+            spec = attach_spec_operators(alg, sig)
+            alg.attrs["blades"] = Obj("blades", {"e": mv_obj(alg, (0,), [PV(Poly.const(1), "atom")])})
+            it = make_interp(repo)
+            it.max_steps = 20_000_000
+            it.algebra = alg
+            it.instance_classes["algebra"] = "algebra.Algebra"
+            try:
+                out = it.run(q, [x], {"symbolic": True})
+            except NoValue as exc:
+                raise Unknown(c, str(exc), fn)
+            if out[0] == "raise":
+                ctx.violation(c, f"raises {out[1]} for an invertible operand ({label}, signature {sig})", fn)
+                continue
+            try:
+                num, den = out[1]
+            except (TypeError, ValueError):
+                raise Unknown(c, f"returns {out[1]!r}", fn)
+            n_, dp = as_spec(num), poly_of_value(den)
+            if n_ is None or dp is None:
+                raise Unknown(c, f"numerator {num!r} / denominator {den!r}", fn)
+            xs = as_spec(x)
+            problems = []
+            if dp.is_zero():
+                problems.append("the denominator is identically zero")
+            for side, prod in (("x * numerator", spec.gp(xs, n_)), ("numerator * x", spec.gp(n_, xs))):
+                rest = sorted(k for k in prod if k != 0)
+                if rest:
+                    problems.append(f"{side} has non-scalar parts on blades {[bin(k) for k in rest[:3]]}")
+                elif prod.get(0, Poly()) != dp:
+                    problems.append(f"{side} = {prod.get(0, Poly())!r} is not the denominator {dp!r}")
+            if problems:
+                ctx.violation(c, f"{label} (signature {sig}): " + "; ".join(problems[:2]) + ": numerator / denominator is not the inverse", fn)
+            else:
+                ctx.ok(c, fn)
+
+
+@rule("C07.div-order", props=["C07", "C12", "C16"], min_instances=3, mutants=[
     ("division multiplies on the wrong side", ("codegen", "    num = num if x is None else x * num", "    num = num if x is None else num * x")),
     ("division inverts the left operand", ("codegen", "    num, denom = codegen_inv(y, x, symbolic=True)\n    if not denom:", "    num, denom = codegen_inv(x, y, symbolic=True)\n    if not denom:")),
     ("an empty left operand counts as no left operand", ("codegen", "    num = num if x is None else x * num", "    num = x * num if x else num")),
@@ -398,7 +481,7 @@ def zero_division(ctx):
                                  f"inverse ({sorted(ZERO_DIV_SITES)})", r, module=mname)
 
 
-@rule("C07.power-supply", props=["C07", "C17"], min_instances=3, mutants=[
+@rule("C07.power-supply", props=["C07", "C17", "C11", "C13", "C19"], min_instances=3, mutants=[
     ("addition chain combines the wrong predecessors", ("codegen", "            powers[step] = operation(powers[chain[-2]], powers[step - chain[-2]])", "            powers[step] = operation(powers[chain[-2]], powers[chain[-2]])")),
     ("power table seeded with the square", ("codegen", "    powers = {1: x}\n    for step in exponents:", "    powers = {1: operation(x, x)}\n    for step in exponents:")),
 ])
